@@ -12,8 +12,9 @@
    * SchemaSetFromFiles: after the message loop and the enum loop, over SchemaSet.registered, the refs
      of the set in the order they were created (refTo and messageSchema append to it; the maps are
      never ranged);
-   * SchemaCache.Schema: after schemaLocked succeeded, over sc.registered, the refs THIS call added
-     (the list the roll-back uses); a failure rolls the call back like any other build error.
+   * SchemaCache.Schema: at the end of schemaLocked (only Schema calls it; nested builds do not go through
+     it), over sc.registered, the refs THIS call added (the list the roll-back uses); Schema rolls the
+     call back on a clash like on any other build error.
 
    For each ref whose schema is an object: checkPropertyNames(object.ClientProperties()).
 
